@@ -213,3 +213,22 @@ package vectorstore
 //@   ensures err == nil && callres(Get, 2, 0) != nil ==> result0.flatCentroids == callres(BytesToFloat32, 2, 0) && callarg(BytesToFloat32, 2, 0) == callres(Get, 2, 0)
 //@   ensures err == nil && callres(Get, 1, 0) == nil ==> result0.centroidDists == nil
 //@   ensures err == nil && callres(Get, 2, 0) == nil ==> result0.flatCentroids == nil
+//@ func (VectorStore).DistanceFromPoint
+//@   trusted
+//@   pure
+//@ func (VectorStore).GetMany
+//@   trusted
+//@   pure
+//@   allocates
+//@   ensures result1 == nil ==> forall(k, 0, len(result0), exists(j, 0, len(ids), pid(result0[k]) == ids[j]))
+//@ func (VectorStore).Get
+//@   trusted
+//@   pure
+//@   allocates
+//@   ensures result1 == nil ==> pid(result0) == id
+//@ func (VectorStore).Delete
+//@   trusted
+//@   pure
+//@ func (VectorStore).Fit
+//@   trusted
+//@   pure
